@@ -37,7 +37,10 @@ PROPS = {
                  {"engine": "csv", "mode": "rt", "n_quick": 600, "n_thorough": 100000},
                  {"engine": "grp", "mode": "", "n_quick": 600, "n_thorough": 100000},
                  {"engine": "agg", "mode": "", "n_quick": 600, "n_thorough": 100000},
-                 {"engine": "rsm", "mode": "", "n_quick": 400, "n_thorough": 50000}],
+                 {"engine": "rsm", "mode": "", "n_quick": 400, "n_thorough": 50000},
+                 # the accessors and helpers no other engine calls (Column/Series Len/At/AsFloat64, Select, String, typed
+                 # columns, dialect helpers, GetAllColumnNames)
+                 {"engine": "misc", "mode": "", "n_quick": 600, "n_thorough": 100000}],
         "rule": "histories biased to invalid arguments (unknown names, boundary and extreme integers, unknown option strings, "
                 "mismatched operands, wrong cell types); every call under recover(); non-trivial = at least one successful step on a frame with >= 2 rows",
         "assumptions": ["scalar cells only; callbacks that themselves misbehave are outside the property"],
